@@ -18,6 +18,7 @@ import TboxModel.C20.CronProofs
 import TboxModel.C20.CCronProofs
 import TboxModel.C20.CCronFwd
 import TboxModel.C20.CCronMin
+import TboxModel.C20.CCronFuel
 import TboxModel.C20.Reads
 namespace Tbox.C20
 
@@ -433,12 +434,16 @@ theorem C20_cdo_next_skips_nothing (e : CC.CExpr) (hw : CC.WF e) (dot fuel T : N
   CC.doNext_skip e hw dot fuel T c' h
 
 -- OPEN: `C20_cnext_earliest` — CC.cronNext e t fuel = Cron.nextCron e.toExpr t H for all sufficiently large fuel / H.
---   PROVED below: whenever the transcription returns an instant it is THE earliest match (hypothesis: it returns one — decidable).
---   Missing for the full equality, precisely: (a) fuel sufficiency — a bound F(e) with `fuel ≥ F → (doNext e dot fuel c = none →
---   the horizon test fired)`: needs a measure of the recursion (each recursive call happens after its block moved its field
---   strictly forward; depth ≤ 60 + 24 + 366·… + 12·6); (b) horizon exactness — the test `tm_year − dot > 4` at a month change fires
+--   PROVED below: whenever the transcription returns an instant it is THE earliest match (hypothesis: it returns one — decidable);
+--   (a) FUEL SUFFICIENCY IS CLOSED (CCronFuel.lean): more fuel never changes an answer (`C20_cnext_more_fuel_same_answer`), a
+--   stable fuel exists for every expression and t (`C20_cnext_fuel_stable`), and with an explicit bound: whenever any instant
+--   M > t matches, every fuel > M − t gives the same answer and a `none` there is a `none` at every fuel — the horizon test, not
+--   the fuel (`C20_cnext_fuel_sufficient`, `C20_cnext_none_is_horizon`); hence `C20_cnext_earliest_upto_horizon`: when the
+--   reference answers r2, the transcription with fuel > r2 − t answers r2 too, or its horizon test fired.
+--   STILL MISSING for the full equality, precisely: (b) horizon exactness — the test `tm_year − dot > 4` at a month change fires
 --   iff the reference's `yearOf l > cronDot e t + 4` at its month jump (needs: the landing day of `findNext months` is the
---   reference's `leastFrom monP (d+1) 400`).  The driver compares the two answers on every generated case.
+--   reference's `leastFrom monP (d+1) 400`), i.e. the second alternative of `C20_cnext_earliest_upto_horizon` is impossible.
+--   The driver compares the two answers on every generated case.
 /-- **minimality of the transcribed `cron_next`** (partial: given that it returns an instant): for every string the parser
 accepts, every t and every fuel, the instant returned is strictly after t, matches all six fields, and NO instant strictly
 between t and it matches — it is the declaratively earliest match, the same notion the weekly / workday theorems use. -/
@@ -457,6 +462,49 @@ theorem C20_cnext_fuel_counterexample :
     (CC.parseExpr "* * * * * *".toList).map (fun e => (CC.cronNext e 0 0, CC.cronNext e 0 1, Cron.nextCron e.toExpr 0 4000))
       = some (none, some 1, some 1) := by decide +kernel
 
+/-- **more fuel never changes an answer** of the transcribed `cron_next` (every expression value, every t): the recursion
+bound of the model can only turn an answer into "none", never into a different instant -/
+theorem C20_cnext_more_fuel_same_answer (e : CC.CExpr) (t fuel fuel' r : Nat) (hle : fuel ≤ fuel')
+    (h : CC.cronNext e t fuel = some r) : CC.cronNext e t fuel' = some r :=
+  CC.cronNext_mono e t fuel fuel' r hle h
+
+/-- **fuel sufficiency (existence)**: for every expression value and every t there is a fuel from which on the answer of the
+transcribed `cron_next` is constant — also when nothing ever matches ("0 0 0 30 2 *") -/
+theorem C20_cnext_fuel_stable (e : CC.CExpr) (t : Nat) :
+    ∃ fuel0, ∀ fuel, fuel0 ≤ fuel → CC.cronNext e t fuel = CC.cronNext e t fuel0 :=
+  CC.cronNext_stable e t
+
+/-- **fuel sufficiency (explicit bound)**: for every accepted string, if ANY instant M > t matches the expression then
+`do_next` re-enters itself at most M − t times (each re-entry is on a strictly later calendar and no block passes a
+matching instant): every fuel > M − t gives the answer of fuel M − t + 1 -/
+theorem C20_cnext_fuel_sufficient (s : List Char) (e : CC.CExpr) (t M fuel : Nat) (hp : CC.parseExpr s = some e)
+    (hM : Cron.CronMatch e.toExpr M) (htM : t < M) (hf : M - t < fuel) :
+    CC.cronNext e t fuel = CC.cronNext e t (M - t + 1) :=
+  CC.cronNext_fuel_enough e (CC.parseExpr_wf s e hp) t M (M - t + 1) fuel (CC.cronMatch_matchTm e M hM) htM (by omega) (by omega)
+
+/-- … and a "none" at such a fuel is the YEAR HORIZON (`tm_year − dot > 4` in the month block — the only other way `do_next`
+fails), never the model's recursion bound: the transcription then answers "none" at every fuel -/
+theorem C20_cnext_none_is_horizon (s : List Char) (e : CC.CExpr) (t M fuel : Nat) (hp : CC.parseExpr s = some e)
+    (hM : Cron.CronMatch e.toExpr M) (htM : t < M) (hf : M - t < fuel) (h : CC.cronNext e t fuel = none) :
+    ∀ f, CC.cronNext e t f = none :=
+  CC.cronNext_none_is_horizon e (CC.parseExpr_wf s e hp) t M fuel (CC.cronMatch_matchTm e M hM) htM hf h
+
+/-- **transcription = reference up to the horizon test** (lemma (a) closed, lemma (b) isolated): whenever the reference
+search answers r2, the transcribed `cron_next` with ANY fuel > r2 − t answers r2 as well — unless its horizon test fired,
+in which case it answers "none" at every fuel -/
+theorem C20_cnext_earliest_upto_horizon (s : List Char) (e : CC.CExpr) (t H r2 fuel : Nat) (hp : CC.parseExpr s = some e)
+    (h2 : Cron.nextCron e.toExpr t H = some r2) (hf : r2 - t < fuel) :
+    CC.cronNext e t fuel = some r2 ∨ ∀ f, CC.cronNext e t f = none := by
+  obtain ⟨a1, a2, _⟩ := Cron.nextCron_some e.toExpr t H r2 h2
+  cases hc : CC.cronNext e t fuel with
+  | some r => exact Or.inl (by rw [C20_cnext_agrees_with_reference s e t fuel H r r2 hp hc h2])
+  | none => exact Or.inr (C20_cnext_none_is_horizon s e t r2 fuel hp a2 a1 hf hc)
+
+/-- the hypotheses are satisfiable and the first alternative is the one observed: "0 0 12 * * *" from 11:59:50 on day 0 — the
+reference answers 43200, the bound asks for fuel > 10, and at fuel 11 (as at fuel 300) the transcription answers 43200 -/
+example : (CC.parseExpr "0 0 12 * * *".toList).map
+      (fun e => (Cron.nextCron e.toExpr 43190 4000, decide (43200 - 43190 < 11), CC.cronNext e 43190 11, CC.cronNext e 43190 300))
+    = some (some 43200, true, some 43200, some 43200) := by decide +kernel
 /-- the hypothesis of the partial theorem is satisfiable: a sparse expression whose next instant lies four calendar years ahead -/
 example : (CC.parseExpr "0 0 0 29 2 *".toList).map (fun e => CC.cronNext e 1709164800 300) = some (some 1835395200) := by decide +kernel
 
